@@ -158,6 +158,7 @@ type Worker struct {
 	smallGroup   bool
 	smallExpBits int
 	bigStripMax  int
+	orderHint    bool
 	b64prov  map[*Term]*Term
 	ufApps   map[string][]*Term
 	model    *Model
@@ -305,6 +306,7 @@ func (w *Worker) runJob(j Job) {
 	w.smallGroup = false
 	w.smallExpBits = 0
 	w.bigStripMax = -1
+	w.orderHint = false
 	w.b64prov = nil
 	w.ufApps = nil
 	w.model = newModel(map[string]*big.Int{})
@@ -834,6 +836,11 @@ func (w *Worker) obligation(kind, id string, ok *Term, msg string) {
 	}
 	w.h.mu.Unlock()
 	if ok.IsFalse() {
+		if w.h.Concrete != nil && kind == "assert" {
+			// concrete (differential) run: record and continue like the native run does
+			w.report(&Violation{Kind: kind, ID: id, Msg: msg})
+			return
+		}
 		_, m := w.check(nil, true)
 		w.report(&Violation{Kind: kind, ID: id, Msg: msg, Model: m})
 		w.trace = append(w.trace, Decision{K: 'o', V: 0})
